@@ -847,6 +847,22 @@ func (x *tr) expr(e ast.Expr) string {
 			return x.letPair(fmt.Sprintf("h_lit %s [%s]", x.use("heap_"), strings.Join(els, "; ")), "heap_")
 		}
 		if x.t.strict {
+			if _, isSlice := x.p.TypesInfo.TypeOf(z).Underlying().(*types.Slice); isSlice && x.kindOf(z) == "bytes" {
+				// []byte{'m', 0x0a}: constant elements only
+				var els []string
+				for _, e := range z.Elts {
+					tv, ok := x.p.TypesInfo.Types[e]
+					if _, kv := e.(*ast.KeyValueExpr); kv || !ok || tv.Value == nil || tv.Value.Kind() != constant.Int {
+						x.bad(z, "byte slice literal with a keyed or non-constant element")
+					}
+					n, exact := constant.Int64Val(tv.Value)
+					if !exact || n < 0 || n > 255 {
+						x.bad(z, "byte slice literal element out of range")
+					}
+					els = append(els, fmt.Sprintf("x%02x", n))
+				}
+				return "[" + strings.Join(els, ";") + "]"
+			}
 			if _, isSlice := x.p.TypesInfo.TypeOf(z).Underlying().(*types.Slice); isSlice && strings.HasPrefix(x.kindOf(z), "list ") {
 				var els []string
 				for _, e := range z.Elts {
